@@ -47,7 +47,7 @@ from mirsym.machine import *
 
 _CTX = None
 def _k3_job(job):
-    nw, nf = job
+    nw, nf = job[:2]; nus = job[2] if len(job) > 2 else 0
     ctx = _CTX; part = Part()
     P = ctx.program()
     key = [k for k in P.items if k[0] == 'ironplc-dsl' and re.fullmatch(r'common::<impl at [^>]*>::parse', k[1]) and 'FixedPoint' in P.items[k].header]
@@ -60,6 +60,12 @@ def _k3_job(job):
                 b = M.fresh_bv('%s%d' % (name, i), 8); M.assume(z3.And(z3.UGE(b, 48), z3.ULE(b, 57))); out.append(b)
             return out
         st['w'] = digits('w', nw); st['f'] = digits('f', nf)
+        # the lexer hands over digits and underscores: up to two underscores at symbolic positions of the fraction (never first)
+        for k in range(nus):
+            pv = M.fresh_bv('underscore%d' % k, 8); dom = list(range(1, nf)); M.declare_domain(pv, dom); pos = dom[-1]
+            for v in dom[:-1]:
+                if M.branch(pv == v): pos = v; break
+            st['f'][pos] = 95
         return M.call_fn(key[0], [Ref(Cell(Str(st['w'] + [46] + st['f'])))])
     def on_path(M, pr):
         part.paths += 1
@@ -68,7 +74,7 @@ def _k3_job(job):
         if pr.panic:
             s = z3.Solver(); s.add(*pr.pc); t1 = time.time(); r = s.check(); part.solver_s += time.time() - t1; part.queries += 1
             if r == z3.sat:
-                m = s.model(); L = ''.join(chr(m.eval(x, True).as_long()) for x in st['w']) + '.' + ''.join(chr(m.eval(x, True).as_long()) for x in st['f'])
+                m = s.model(); L = ''.join(chr(m.eval(x, True).as_long()) for x in st['w']) + '.' + ''.join(chr(x if isinstance(x, int) else m.eval(x, True).as_long()) for x in st['f'])
                 part.add('C04/K3/fixed-point-parse/%s' % re.sub(r'[^a-z]+', '-', pr.panic.msg.lower())[:40], 'FixedPoint::parse panics on %s: %s' % (L, pr.panic.msg[:60]), {'text': L}, ('fixed_point_panic', (L,)))
         if len(part.samples) < 1: part.samples.append({'whole_digits': nw, 'fraction_digits': nf, 'outcome': 'panic' if pr.panic else ('Ok' if pr.result.disc == 0 else 'Err')})
     M.explore(entry, on_path)
@@ -86,8 +92,8 @@ def _replay_fp_panic(L):
 def k3(ctx, kr):
     global _CTX
     _CTX = ctx
-    jobs = [(1, n) for n in (1, 8, 15, 16, 17)] + [(20, 2), (21, 2)]
-    kr.bounds = 'texts W.F of symbolic digits with (|W|,|F|) in %s (around the 15-digit precision limit and the u64 limit)' % jobs
+    jobs = [(1, n) for n in (1, 8, 15, 16, 17)] + [(20, 2), (21, 2)] + [(1, n, 1) for n in (3, 15, 16, 17)] + [(1, n, 2) for n in (16, 17, 18)]
+    kr.bounds = 'texts W.F of symbolic digits with (|W|,|F|) in %s (around the 15-digit precision limit and the u64 limit); a third number is the count of underscores placed at symbolic positions of the fraction' % jobs
     for part in par_map(_k3_job, jobs): merge_part(kr, part)
     P = ctx.program()
     kr.functions = fn_paths(P, getattr(kr, '_enc', set()))
